@@ -404,6 +404,7 @@ fn walk(pp: &mut ParsedPacket, sec: &str, incl_opt: bool, plan: &str) -> String 
 // ---- C16: barrier-scripted interleavings of failing table calls and error_description reads ------
 
 const ERR_KINDS: usize = 13;
+static LAST_CERR: std::sync::atomic::AtomicPtr<dnssector::c_abi::CErr> = std::sync::atomic::AtomicPtr::new(std::ptr::null_mut());
 
 fn schedule(nthreads: usize, steps: &str) -> String {
     use std::ffi::CStr;
@@ -448,6 +449,18 @@ fn schedule(nthreads: usize, steps: &str) -> String {
                     match act {
                         'f' => {
                             let rc = failing_call(*kind, &mut c_err, &mut pp);
+                            LAST_CERR.store(c_err as *mut _, std::sync::atomic::Ordering::SeqCst);
+                            format!("rc={}", rc)
+                        }
+                        'x' => {
+                            // the error slot handed to the call still holds the pointer another thread obtained last (a C caller
+                            // need not clear an out-parameter): what it holds must not matter
+                            let prev = LAST_CERR.load(std::sync::atomic::Ordering::SeqCst);
+                            if !prev.is_null() {
+                                c_err = prev as *const _;
+                            }
+                            let rc = failing_call(*kind, &mut c_err, &mut pp);
+                            LAST_CERR.store(c_err as *mut _, std::sync::atomic::Ordering::SeqCst);
                             format!("rc={}", rc)
                         }
                         'n' => {
@@ -771,6 +784,26 @@ fn run_op(ctx: &mut Ctx, op: &str) -> String {
                 Ok(v) => format!("OK:{}", hex(&v)),
                 Err(e) => err(&e),
             }
+        }
+        "DD" => {
+            // C17: name emission with one dictionary, alone and with another dictionary used on the same thread in between
+            let names: Vec<Vec<u8>> = f[1].split('.').map(unhex).collect();
+            let other = unhex(f[2]);
+            let run = |interleave: bool| -> Vec<u8> {
+                let mut dict = SuffixDict::new();
+                let mut out = vec![0u8; 12];
+                for n in &names {
+                    Compress::copy_compressed_name(&mut dict, &mut out, n, 0);
+                    if interleave {
+                        let mut d2 = SuffixDict::new();
+                        let mut o2 = vec![0u8; 12];
+                        Compress::copy_compressed_name(&mut d2, &mut o2, &other, 0);
+                        Compress::copy_compressed_name(&mut d2, &mut o2, n, 0);
+                    }
+                }
+                out
+            };
+            format!("DD:{}|{}", hex(&run(false)), hex(&run(true)))
         }
         "CU" => {
             // compress, then decompress the result
